@@ -125,11 +125,22 @@ Fixpoint store_changes (head : Z) (cp_s cp_c : Z) (cs : list chdr) : list stored
 Definition in_seq_range (lo hi : Z) (st : stored) : bool :=
   (lo <=? st_sseq st) && (st_sseq st <=? hi).
 
+(* changes of the requester itself that pass the own-change filter come from an
+   earlier attachment: their presence part is not replayed *)
+Definition strip_own_presence (a : actor) (l : list stored) : list stored :=
+  flat_map (fun st =>
+      let c := st_ch st in
+      if N.eqb (h_actor c) a && negb (N.eqb (h_pres c) 0) then
+        if h_nops c =? 0 then []
+        else [mkSt (st_sseq st) (mkCh (h_actor c) (h_cseq c) (h_lam c) (h_vv c) (h_nops c) 0%N)]
+      else [st]) l.
+
 (* pullChangeInfos: range (from, to], drop the requester's own already-known changes,
    strip presence on presenceless documents *)
 Definition pull_changes (s : srv) (a : actor) (from to : Z) (cp_after_c : Z) : list stored :=
   let rng := filter (in_seq_range (from + 1) to) (s_log s) in
-  let notown := filter (fun st => negb (N.eqb (h_actor (st_ch st)) a && (h_cseq (st_ch st) <=? cp_after_c))) rng in
+  let notown := strip_own_presence a
+      (filter (fun st => negb (N.eqb (h_actor (st_ch st)) a && (h_cseq (st_ch st) <=? cp_after_c))) rng) in
   if s_nopres s then
     flat_map (fun st =>
       let c := st_ch st in
